@@ -26,7 +26,7 @@ CLAIMED["C12"] = {
 CLAIMED["C16"] = {
     "text": "Seeded search over interleavings of next/previous/first_of/last_of/nth_of (Date and DateTime, zones with skipped midnights) with a nemesis that calls calendar.setfirstweekday(), rewrites the week configuration, clears the zone cache and restarts; every result must equal the cold re-execution in the default environment (the statement has no dependence on the calendar module's display setting) and the weekday arithmetic of datetime.date.",
     "ref": "DESIGN.md §5 C16",
-    "note": "trusts: datetime.date arithmetic and stdlib zoneinfo as reference; time-of-day is asserted only where the target wall time is unique or a skipped midnight; silent where the calendar day the statement names does not exist in the zone; no open known finding (f41cb8b, eb4d7a7)",
+    "note": "trusts: datetime.date arithmetic and stdlib zoneinfo as reference; time-of-day is asserted only where the target wall time is unique or a skipped midnight; silent where the calendar day the statement names does not exist in the zone; one open known finding class (keep_time with a kept time that is skipped on the target day)",
 }
 
 CLAIMED["C02"] = {
@@ -94,7 +94,7 @@ FIX_COMMITS = ["0cac821 (C09 lazy-slot race)", "c2f908d (previous() never termin
                "2c83944 (next() drifts to 01:00 after a skipped midnight; C16)", "6249586 (C12 week configuration read twice)", "1273e62 (C16 first_of/last_of depend on calendar.setfirstweekday())", "9fab684 (C02 mock local zone read twice)", "fc92ad3 (C06 precise_diff full-month shortcut, Python + Rust)", "b63f456 (Interval.__init__ dropped endpoint fold; C18)", "a0e6037 (zh before/after templates; C18)", "5ef6d18 (nl week_data misplaced; C18)", "89fb712 (Rust ordinal dates on month ends; C08)", "ab5eca4 (z token regex; C08)", "77c9f3a (from_format escaped literals; C08)", "7d62906 + 71470da (Do token in from_format; C08)", "a8ba9ca (instance() of pytz second-pass datetimes; C01)", "df3000b (instance() of pytz.FixedOffset; C01)", "a2ae08e (Interval endpoint order by instant for shared tzinfo; C05/C18)", "6546eac (Duration deepcopy weeks; C14)", "02aeae7 (Interval deepcopy; C14)", "3598369 (DateTime pickle fold; C14)", "249b599 (Duration pickle years/months; C14)",
                "bf98e04 (compiled precise_diff UTC shift across month boundaries; C06/C18)", "771269e (compiled precise_diff equal-endpoints early return; C06)",
                "dc6c9d1 (quarter/year navigation carried the time of day onto a date where it is skipped; C16)",
-               "f41cb8b (start_of/end_of boundary resolved with the carried fold; C12/C16)", "eb4d7a7 (navigation kept 01:00 from a day without midnight; C16)"]
+               "f41cb8b (start_of/end_of boundary resolved with the carried fold; C12/C16)", "eb4d7a7 (navigation kept 01:00 from a day without midnight; C16)", "7544ddf (navigation target date resolved in one step; C16)", "356e0d0 (next/previous skip candidates normalised onto another day; C16)"]
 
 
 def main():
